@@ -32,7 +32,7 @@ fn select_calls() -> Vec<Call<SelectStatement>> {
         ("orders", |s, k| { s.order_by(a("o"), if k % 2 == 0 { Order::Asc } else { Order::Desc }); }),
         ("limit", |s, k| { s.limit(k % 7 + 1); }),
         ("offset", |s, k| { s.offset(k % 5 + 1); }),
-        ("lock", |s, _| { s.lock(LockType::Update); }),
+        ("lock", |s, k| { match k % 3 { 0 => { s.lock(LockType::Update); } 1 => { s.lock_with_tables(LockType::Share, [a("lt"), a("lu")]); } _ => { s.lock_with_tables_behavior(LockType::KeyShare, [a("lt")], LockBehavior::SkipLocked); } } }),
         ("window", |s, _| { s.window(a("w"), WindowStatement::partition_by(a("p"))); }),
         ("with", |s, _| { s.with_cte(CommonTableExpression::new().query(nested(7)).table_name(a("cte")).to_owned()); }),
         ("table_sample", |s, k| { s.table_sample(SampleMethod::SYSTEM, (k % 50) as f64, None); }),
